@@ -1,3 +1,128 @@
-//! end to end with UserModel: cut / copy a range and paste it (placeholder filled in below)
+//! End to end with UserModel: cut / copy a range (1x1 .. 3x3) and paste it on the same sheet (disjoint or
+//! overlapping) or on another sheet; the statement evaluated on values, contents and styles.
+use ironcalc_base::expressions::types::Area;
+use ironcalc_base::UserModel;
+use serde_json::json;
 use vh_common::*;
-pub fn run(_rng: &mut Rng, _or: &mut Oracle, _thorough: bool) -> serde_json::Value { serde_json::json!({}) }
+
+fn a1(r: i32, c: i32) -> String { format!("{}{}", (b'A' + (c - 1) as u8) as char, r) }
+
+struct Sc { area: (i32, i32, i32, i32), tgt_sheet: u32, dst: (i32, i32), cut: bool, inside: Vec<((i32, i32), String)>, outside: Vec<((u32, i32, i32), String)> }
+
+fn build(sc: &Sc) -> Result<UserModel<'static>, String> {
+    let mut u = UserModel::new_empty("m", "en", "UTC", "en")?;
+    u.new_sheet()?;
+    for s in 0..2u32 { for r in 1..=7 { for c in 1..=6 { u.set_user_input(s, r, c, &format!("{}", (s as i32 + 1) * 1000 + r * 10 + c))?; } } }
+    for ((r, c), f) in &sc.inside { u.set_user_input(0, *r, *c, f)?; }
+    for ((s, r, c), f) in &sc.outside { u.set_user_input(*s, *r, *c, f)?; }
+    // a style on the first cell of the area
+    u.update_range_style(&Area { sheet: 0, row: sc.area.0, column: sc.area.1, width: 1, height: 1 }, "font.b", "true")?;
+    Ok(u)
+}
+fn paste(u: &mut UserModel, sc: &Sc) -> Result<(), String> {
+    let (r, c, h, w) = sc.area;
+    u.set_selected_sheet(0)?;
+    u.set_selected_cell(r, c)?;
+    u.set_selected_range(r, c, r + h - 1, c + w - 1)?;
+    let cb = u.copy_to_clipboard()?;
+    let v = serde_json::to_value(&cb).map_err(|e| e.to_string())?;
+    let data = serde_json::from_value(v["data"].clone()).map_err(|e| e.to_string())?;
+    u.set_selected_sheet(sc.tgt_sheet)?;
+    u.set_selected_cell(sc.dst.0, sc.dst.1)?;
+    u.set_selected_range(sc.dst.0, sc.dst.1, sc.dst.0, sc.dst.1)?;
+    u.paste_from_clipboard(0, (r, c, r + h - 1, c + w - 1), &data, sc.cut)
+}
+fn val(u: &UserModel, s: u32, r: i32, c: i32) -> String { format!("{:?}", u.get_model().get_cell_value_by_index(s, r, c)) }
+
+/// formulas whose operand structure the moved printer cannot spell
+fn paren_sensitive(f: &str) -> bool { f.contains('(') && !f.starts_with("=SUM(") }
+
+pub fn run(rng: &mut Rng, or: &mut Oracle, thorough: bool) -> serde_json::Value {
+    let n = if thorough { 1500 } else { 150 };
+    let mut stats = std::collections::BTreeMap::<String, u64>::new();
+    for i in 0..n {
+        let h = 1 + rng.below(3) as i32; let w = 1 + rng.below(3) as i32;
+        let r0 = 2 + rng.below(2) as i32; let c0 = 2 + rng.below(2) as i32;
+        let other = i % 3 == 2;
+        let cut = i % 4 != 3;
+        let dst = match rng.below(4) { 0 => (r0 + 4, c0), 1 => (r0, c0 + 3), 2 => (r0 + 1, c0 + 1), _ => (r0 - 1, c0) };
+        let (dr, dc) = (dst.0 - r0, dst.1 - c0);
+        // formulas inside the area (first cell and, if any, last cell)
+        let in_cell = a1(r0 + h - 1, c0 + w - 1); let out_cell = a1(7, 1);
+        let pool_in = [format!("={in_cell}+{out_cell}"), format!("=SUM({}:{in_cell})*2", a1(r0, c0)), format!("=${out_cell}-$A$1"), format!("=10-({out_cell}-{in_cell})"), format!("=({in_cell}+1)^2"), format!("=-({in_cell}+{out_cell})")];
+        let mut inside = vec![((r0, c0), rng.pick(&pool_in).clone())];
+        if h * w > 1 { inside.push(((r0 + h - 1, c0 + w - 1), format!("={}*3", a1(1, 1)))); }
+        // formulas elsewhere: references to a cut cell, to a range wholly inside, to a range partly inside, unrelated ones
+        let first = a1(r0, c0);
+        let pool_out = [format!("={first}+1"), format!("=SUM({first}:{in_cell})"), format!("=SUM(A1:{in_cell})"), "=1-(2-3)".to_string(), "=(1+2)^2".to_string(), format!("=$A$1+{out_cell}")];
+        let mut outside = vec![];
+        for k in 0..3 { outside.push(((0u32, 1 + k, 8), rng.pick(&pool_out).clone())); }
+        outside.push(((1u32, 1, 8), format!("=Sheet1!{first}*2")));
+        outside.push(((1u32, 2, 8), format!("=SUM(Sheet1!{first}:{in_cell})")));
+        let sc = Sc { area: (r0, c0, h, w), tgt_sheet: if other { 1 } else { 0 }, dst, cut, inside, outside };
+        let input = json!({"area": [r0, c0, h, w], "to_sheet": sc.tgt_sheet, "to": [dst.0, dst.1], "cut": cut,
+            "inside": sc.inside.iter().map(|(p, f)| format!("{}: {}", a1(p.0, p.1), f)).collect::<Vec<_>>(),
+            "outside": sc.outside.iter().map(|(p, f)| format!("S{}!{}: {}", p.0 + 1, a1(p.1, p.2), f)).collect::<Vec<_>>()});
+        let Ok(mut u) = build(&sc) else { continue };
+        let mut before = std::collections::BTreeMap::new();
+        for s in 0..2u32 { for r in 1..=12 { for c in 1..=10 { before.insert((s, r, c), val(&u, s, r, c)); } } }
+        let bold_before = u.get_cell_style(0, r0, c0).map(|s| s.font.b).unwrap_or(false);
+        if let Err(e) = paste(&mut u, &sc) { or.fail("paste_failed", input.clone(), e); continue; }
+        *stats.entry(format!("{}{}", if cut { "cut" } else { "copy" }, if other { "_other_sheet" } else { "" })).or_insert(0) += 1;
+        let ts = sc.tgt_sheet;
+        let in_src = |s: u32, r: i32, c: i32| s == 0 && r >= r0 && r < r0 + h && c >= c0 && c < c0 + w;
+        let in_dst = |s: u32, r: i32, c: i32| s == ts && r >= dst.0 && r < dst.0 + h && c >= dst.1 && c < dst.1 + w;
+        let sens_in = sc.inside.iter().any(|(_, f)| paren_sensitive(f));
+        // (1) pasted cells have the values the originals had (cut; for copy only literal cells are comparable)
+        for r in r0..r0 + h { for c in c0..c0 + w {
+            let is_formula = sc.inside.iter().any(|(p, _)| *p == (r, c));
+            if !cut && is_formula { continue; }
+            or.checked += 1;
+            let got = val(&u, ts, r + dr, c + dc);
+            if got != before[&(0, r, c)] {
+                let overlap = !other && dr.abs() < h && dc.abs() < w;
+                let class = if is_formula && sc.inside.iter().any(|(p, f)| *p == (r, c) && paren_sensitive(f)) { "cut_formula_value_changed_moved_paren_missing" }
+                    else if other && is_formula { "cut_to_other_sheet_formula_value_changed" }
+                    else if overlap { "overlapping_cut_paste_value_changed" }
+                    else if is_formula && sens_in { "cut_formula_reads_cut_formula_with_moved_paren_missing" }
+                    else { "pasted_value_differs" };
+                or.fail(class, json!({"scenario": input, "cell": a1(r, c), "before": before[&(0, r, c)], "after": got}), format!("pasted {} = {} was {}", a1(r + dr, c + dc), got, before[&(0, r, c)]));
+            }
+        } }
+        // style of the first cell travels
+        or.checked += 1;
+        let bold_after = u.get_cell_style(ts, dst.0, dst.1).map(|s| s.font.b).unwrap_or(false);
+        if bold_before != bold_after { or.fail("pasted_style_differs", input.clone(), "bold flag of the first cell lost".into()); }
+        // (2) cut: the source cells that are not overwritten are empty
+        if cut { for r in r0..r0 + h { for c in c0..c0 + w { if !in_dst(0, r, c) {
+            or.checked += 1;
+            let got = val(&u, 0, r, c);
+            if got != "Ok(String(\"\"))" && got != "Ok(None)" && !got.contains("\"\"") { or.fail("cut_source_not_cleared", json!({"scenario": input, "cell": a1(r, c), "after": got}), format!("{} still {}", a1(r, c), got)); }
+        } } } }
+        // (3) every formula elsewhere keeps its value (cut: references follow; copy: nothing else changes) unless it reads an overwritten cell
+        for ((s, r, c), f) in &sc.outside {
+            if in_src(*s, *r, *c) || in_dst(*s, *r, *c) { continue; }
+            or.checked += 1;
+            let got = val(&u, *s, *r, *c);
+            if got != before[&(*s, *r, *c)] {
+                // a formula that reads the target area legitimately changes (its cells were overwritten); so does one reading
+                // part of the cut area through a range that is not wholly inside
+                let reads_partial = f.contains("A1:");
+                let overlap = !other && dr.abs() < h && dc.abs() < w;
+                let class = if !cut && !other { "excluded" }
+                    else if !cut { "excluded" }
+                    else if reads_partial { "excluded" }
+                    else if paren_sensitive(f) { "external_formula_reprinted_by_moved_printer" }
+                    else if other { "cut_to_other_sheet_external_reference_not_retargeted" }
+                    else if overlap { "overlapping_cut_paste_external_value_changed" }
+                    else if sens_in { "external_value_depends_on_cut_formula_with_moved_paren_missing" }
+                    else { "external_formula_value_changed_after_cut" };
+                if class == "excluded" { *stats.entry("excluded_external".into()).or_insert(0) += 1; continue; }
+                or.fail(class, json!({"scenario": input, "formula": f, "at": format!("S{}!{}", s + 1, a1(*r, *c)), "before": before[&(*s, *r, *c)], "after": got,
+                    "text_after": u.get_model().get_cell_formula(*s, *r, *c).ok().flatten()}),
+                    format!("{f} at S{}!{}: {} -> {}", s + 1, a1(*r, *c), before[&(*s, *r, *c)], got));
+            }
+        }
+    }
+    json!(stats)
+}
